@@ -320,7 +320,8 @@ def gen_case(rng, profile=None):
         return aimed_union_case(rng)
     if profile is None and rng.random() < 0.08:
         # SimplePathStrategy with several fragments (hand-over between fragments, KMP fall-back)
-        return {'doc': G.rand_doc(rng, rng.choice([9, 12, 16]), deep=True), 'path': G.rand_fragpath(rng)}
+        doc, text = G.rand_fragcase(rng)
+        return {'doc': doc, 'path': text}
     if profile is None and rng.random() < 0.25:
         c = aimed_pred_case(rng)
         if c:
